@@ -97,4 +97,16 @@ theorem foldl_children (ms : List (Match ℝ)) (acc : List (Expl ℝ)) :
   | nil => simp
   | cons m ms ih => simp [List.foldl_cons, ih]
 
+/-! Equation lemmas of the generated definitions that `simp` needs are realised HERE, so that the audited property module
+`BlugeProofs.C17` declares property theorems only. -/
+section eqns
+theorem eqn_1 : True := by have := @BM25Scorer.explainTf.eq_1; trivial
+theorem eqn_2 : True := by have := @BM25Similarity.idfExplainTerm.eq_1; trivial
+theorem eqn_3 : True := by have := @msgDefault.eq_1; trivial
+theorem eqn_4 : True := by have := @msgDefault.eq_2; trivial
+theorem eqn_5 : True := by have := @newBM25Scorer.eq_1; trivial
+theorem eqn_6 : True := by have := @noBoost.eq_1; trivial
+theorem eqn_7 : True := by have := @sim.eq_1; trivial
+end eqns
+
 end Bluge.C17
